@@ -32,7 +32,7 @@ has_pending = dict(
     desc='BackendWorker::has_pending_events_for_caching_when_transit_event_buffer_empty: false only if no thread has an empty backend buffer together with a non-empty queue',
     structs=[], prelude=HP_PRELUDE, enforce='BW_has_pending', replace=['BW__update_active_thread_contexts_cache'], loopcontracts=True,
     funcs=[dict(src=dict(header=H, cls='BackendWorker', name='has_pending_events_for_caching_when_transit_event_buffer_empty'), src_params=[],
-                cfun='BW_has_pending', sig='bool BW_has_pending(BW* self)', cls_c='BW', member_fields=['_active_thread_contexts_cache'],
+                cfun='BW_has_pending', sig='bool BW_has_pending(BW* self)', cls_c='BW', member_fields=['_active_thread_contexts_cache'], auto_helpers=dict(typemap={'ThreadContext*': 'TCx*', 'ThreadContext const*': 'TCx*'}), 
                 siblings=['_update_active_thread_contexts_cache'], methods=TC_METHODS, pre_rules=Q_RULES,
                 range_for=[(r'_active_thread_contexts_cache', 'CVec_size', 'CVec_get', 'TCx*')],
                 loops={0: r'''
@@ -87,7 +87,7 @@ cleanup_pred = dict(
     desc='the predicate of BackendWorker::_cleanup_invalidated_thread_contexts: a context is reclaimed exactly when its thread has exited and both its queue and its backend buffer are empty',
     structs=[], prelude=PRED_PRELUDE, enforce='BW_cleanup_pred', replace=[],
     funcs=[dict(src=dict(header=H, cls='BackendWorker', name='_cleanup_invalidated_thread_contexts', lambda_after=r'find_invalid_and_empty_thread_context_callback\s*=\s*\[\]\(ThreadContext\*\s*thread_context\)\s*\{'),
-                cfun='BW_cleanup_pred', sig='bool BW_cleanup_pred(TCx* thread_context)', cls_c='BW', member_fields=[], methods=TC_METHODS, pre_rules=Q_RULES,
+                cfun='BW_cleanup_pred', sig='bool BW_cleanup_pred(TCx* thread_context)', cls_c='BW', member_fields=[], methods=TC_METHODS, pre_rules=Q_RULES, auto_helpers=dict(typemap={'ThreadContext*': 'TCx*', 'ThreadContext const*': 'TCx*'}), 
                 contract=r'''
 __CPROVER_requires(__CPROVER_is_fresh(thread_context, sizeof(TCx)) && __CPROVER_is_fresh(thread_context->_transit_event_buffer, sizeof(TEBs)) && thread_context->_queue_type <= QT_BoundedDropping)
 __CPROVER_assigns()
@@ -196,7 +196,7 @@ queues_empty = dict(
     desc='BackendWorker::_check_frontend_queues_and_cached_transit_events_empty: the context cache is refreshed first (threads that registered since are included), and the answer is true exactly when the queue and the backend buffer of every thread are empty',
     structs=[], prelude=HP_PRELUDE, enforce='BW_queues_empty', replace=['BW__update_active_thread_contexts_cache'], loopcontracts=True,
     funcs=[dict(src=dict(header=H, cls='BackendWorker', name='_check_frontend_queues_and_cached_transit_events_empty'), src_params=[],
-                cfun='BW_queues_empty', sig='bool BW_queues_empty(BW* self)', cls_c='BW', member_fields=['_active_thread_contexts_cache'],
+                cfun='BW_queues_empty', sig='bool BW_queues_empty(BW* self)', cls_c='BW', member_fields=['_active_thread_contexts_cache'], auto_helpers=dict(typemap={'ThreadContext*': 'TCx*', 'ThreadContext const*': 'TCx*'}), 
                 siblings=['_update_active_thread_contexts_cache'], methods=TC_METHODS, pre_rules=Q_RULES,
                 range_for=[(r'_active_thread_contexts_cache', 'CVec_size', 'CVec_get', 'TCx*')],
                 loops={0: r'''
